@@ -5,7 +5,8 @@ import json, os, subprocess, sys, tempfile, shutil, re
 from concurrent.futures import ThreadPoolExecutor
 root='/verif/seeded'
 extra={'C05-4':['C20']}   # seeds whose author filed them under a neighbouring property
-subprocess.run(['/verif/check','list','quick'],stdout=subprocess.DEVNULL,check=True)
+SV=os.environ.get('SV','/verif/bin/stgverif')   # SV=<dev binary>: no rebuild, result file not written
+if 'SV' not in os.environ: subprocess.run(['/verif/check','list','quick'],stdout=subprocess.DEVNULL,check=True)
 def run(sid):
     d=os.path.join(root,sid)
     prop=sid.split('-')[0]
@@ -18,7 +19,7 @@ def run(sid):
         out={}
         for p in [prop]+extra.get(sid,[]):
             env=dict(os.environ,VERIF_REPO=t+'/repo',VERIF_EVIDENCE_DIR=t+'/ev')
-            r=subprocess.run(['/verif/bin/stgverif',p,'quick'],capture_output=True,text=True,env=env)
+            r=subprocess.run([SV,p,'quick'],capture_output=True,text=True,env=env)
             rules=sorted(set(re.findall(r'^\S+: (R[\w.\-]+):',r.stdout,re.M)))
             v={0:'MISSED (exit 0)',1:'VIOLATION',2:'UNDECIDED'}.get(r.returncode,'exit %d'%r.returncode)
             out[p]={"verdict":v,"rules":rules}
@@ -38,4 +39,4 @@ with ThreadPoolExecutor(8) as ex:
     for sid,o in ex.map(run,ids):
         res[sid]=o
         print(sid,o['verdict'],' '.join(o.get('rules',[])))
-json.dump(dict(sorted(res.items())),open(mp,'w'),indent=1)
+if 'SV' not in os.environ: json.dump(dict(sorted(res.items())),open(mp,'w'),indent=1)
